@@ -79,6 +79,11 @@ BUILT = {
             "For every registered method a valid request and every request with one (thorough: two) parameter deviating over a fixed menu (boundary integers, negative, float, empty / odd / non-hex / megabyte strings, every compression prefix, truncated frames, bombs, null / bool / array / object, missing) in 3 (thorough: 6) engine states; every byte string of length <= 2 as init code, as runtime code, as call data and as input of each custom precompile (quick: all of length <= 1 plus a rotating 1/16 of length 2); ABI grids of the custom precompiles called directly and through a contract; 0xfc / 0xfd with complete override sets (self-referential, coinbase, zero-input, vout out of range, garbage). A case is a violation if the handler panics, if the worker process dies, if there is no answer within the watchdog, or if the liveness round afterwards (read, clearCaches, mine, read) fails.",
             "In-process dispatch (parameter decoding + handler bodies), not the HTTP transport. Bitcoin-RPC-backed paths only with complete overrides. One known finding (brc20_mine with a count >= 2^32-1) is reported as KNOWN-FINDING.",
             "DESIGN.md §4 C09"),
+    "C11": ("lock", "model_checking",
+            "lock traces extracted from the real handlers (hook H3); explicit-state BFS over the product of traces under writer-preferring RwLock semantics; controlled scheduler replays every bounded-preemption schedule on the real handlers",
+            "(1) every registered handler is run on the real engine in 6 state classes and its sequence of lock acquisitions / releases on the engine's locks and the global configuration is recorded; (2) the product of every pair of distinct traces, and of every reader/reader/writer and reader/writer/writer triple, is searched exhaustively for a state in which no thread can move, under the semantics 'a read is granted iff no writer holds and no writer is queued' (tested against std's RwLock on every run); no trace may re-acquire a lock that some handler writes, and all traces must respect one acquisition order (which generalises the result to any number of threads); (3) a controlled scheduler runs the real handlers of every pair involving a writer through every schedule with at most 1 (thorough: 2) preemptions at lock-acquisition points, detecting deadlock with its own lock model, and requires that nothing panics and that the engine still serves afterwards; the observed lock events are compared with the extracted traces (conformance count).",
+            "Scheduling points are the lock acquisitions of SharedData (data races on other memory are outside the property). Waits with a time-out count as always eventually enabled. Three-thread combinations are checked on compressed traces (adjacent repetitions of balanced segments removed).",
+            "DESIGN.md §4 C11, Appendix C"),
 }
 
 NOT_BUILT_REASON = "check not built yet in this round (planned in DESIGN.md §4); nothing is claimed for it"
@@ -120,6 +125,8 @@ def main():
              "kind_free_text": "crash-point enumerator over the persistent writes of commit / reorg / finalise (failpoints of hook H2), real close + reopen"},
             {"name": "requests", "path": "/verif/mc/src/props/c09.rs", "serves_properties": [p for p in props if p in BUILT and BUILT[p][0] == "requests"],
              "kind_free_text": "request-grid enumerator: worker processes watched by the parent (hang = no progress), panic capture, liveness rounds"},
+            {"name": "lock", "path": "/verif/mc/src/props/c11.rs", "serves_properties": [p for p in props if p in BUILT and BUILT[p][0] == "lock"],
+             "kind_free_text": "lock-trace extraction + product BFS under writer-preferring semantics + controlled scheduler over the real handlers"},
             {"name": "store", "path": "/verif/mc/src/props/c13.rs", "serves_properties": [p for p in props if p in BUILT and BUILT[p][0] == "store"],
              "kind_free_text": "component explorer: BFS over the real store components against reference models; complete value grids through the real codecs"},
         ],
